@@ -205,6 +205,19 @@ def monOp (op : String) (args : List String) : Option String :=
     let (sa, _) ← pNat ts
     let amp := match p.ptype with | .stable a => a | .cp => 1
     some (verdict (monSsLp amp p.decimals (p.assets.map (·.amount)) after sb sa))
+  | "mon_pos_changed" => do
+    let (own, _) ← pBit args
+    some (if own then "ok" else "viol C08-foreign-change")
+  | "mon_pos_created" => do
+    let (own, ts) ← pBit args
+    let (_viaPm, _) ← pBit ts
+    some (if own then "ok" else "viol C08-created-for-other")
+  | "mon_cp_slippage" => do
+    let (tol, ts) ← pOptNat args
+    let (xs, _) ← pRepeat pNat 5 ts
+    match xs with
+    | [x, y, offer, net, _direct] => some (verdict (monCpSlippage tol x y offer net))
+    | _ => none
   | "mon_twin_c14" => do
     -- single-asset deposit (A) vs swap-half-then-deposit (B): same reserves, LP supply, LP to the
     -- receiver / locked, fees to the collector; the odd unit stays in the pool manager in A
